@@ -30,10 +30,45 @@ pub fn opts_of(cfg: &Value) -> ExecOpts {
 
 /// MemTables; a table with a `sort` entry is declared sorted (`with_sort_order`) after the harness has
 /// verified with arrow's comparator that every partition really is sorted that way.
-pub fn register(ctx: &SessionContext, case: &Value, opts: &ExecOpts) -> Result<(), String> {
+pub async fn register(ctx: &SessionContext, case: &Value, opts: &ExecOpts) -> Result<(), String> {
+    let source = case["cfg"]["source"].as_str().unwrap_or("mem").to_string();
     for t in case["tables"].as_array().unwrap() {
         let (schema, parts) = table_partitions(t, opts);
         let sort = t.get("sort").and_then(|s| s.as_array()).cloned().unwrap_or_default();
+        if source.starts_with("parquet") {
+            // one Parquet file per table partition under <dir>/<run>/<table>/, registered as a listing table
+            use datafusion::parquet::arrow::ArrowWriter;
+            use datafusion::parquet::file::properties::{EnabledStatistics, WriterProperties};
+            let base = util::arg("--dir").ok_or("parquet source needs --dir")?;
+            let run: String = case["id"].as_str().unwrap().chars().map(|c| if c.is_ascii_alphanumeric() { c } else { '_' }).collect();
+            let dir = format!("{base}/{run}/{}", t["name"].as_str().unwrap());
+            std::fs::create_dir_all(&dir).map_err(|e| e.to_string())?;
+            let stats = match source.as_str() {
+                "parquet_nostats" => EnabledStatistics::None,
+                "parquet_page" => EnabledStatistics::Page,
+                _ => EnabledStatistics::Chunk,
+            };
+            let rg = case["cfg"]["row_group"].as_u64().unwrap_or(1024) as usize;
+            for (i, p) in parts.iter().enumerate() {
+                let f = std::fs::File::create(format!("{dir}/part-{i}.parquet")).map_err(|e| e.to_string())?;
+                let props = WriterProperties::builder().set_statistics_enabled(stats).set_max_row_group_size(rg).build();
+                let mut w = ArrowWriter::try_new(f, Arc::clone(&schema), Some(props)).map_err(|e| e.to_string())?;
+                for b in p {
+                    w.write(b).map_err(|e| e.to_string())?;
+                }
+                w.close().map_err(|e| e.to_string())?;
+            }
+            let mut o = ParquetReadOptions::default();
+            if !sort.is_empty() {
+                let order: Vec<SortExpr> = sort
+                    .iter()
+                    .map(|k| col(schema.field(k["i"].as_u64().unwrap() as usize - 1).name().clone()).sort(k["asc"].as_bool().unwrap(), k["nf"].as_bool().unwrap()))
+                    .collect();
+                o = o.file_sort_order(vec![order]);
+            }
+            ctx.register_parquet(t["name"].as_str().unwrap(), &dir, o).await.map_err(|e| e.to_string())?;
+            continue;
+        }
         // (VCONTRACT_LIE: development-only switch used to demonstrate that a false declaration is detected)
         if !sort.is_empty() && std::env::var("VCONTRACT_LIE").is_err() {
             for p in &parts {
@@ -86,6 +121,17 @@ fn type_token(t: &arrow::datatypes::DataType) -> String {
 }
 
 async fn run_case(case: Value) -> Value {
+    let v = run_case_inner(&case).await;
+    if case["cfg"]["source"].as_str().unwrap_or("mem").starts_with("parquet") {
+        if let Some(base) = util::arg("--dir") {
+            let run: String = case["id"].as_str().unwrap().chars().map(|c| if c.is_ascii_alphanumeric() { c } else { '_' }).collect();
+            let _ = std::fs::remove_dir_all(format!("{base}/{run}"));
+        }
+    }
+    v
+}
+
+async fn run_case_inner(case: &Value) -> Value {
     let id = case["id"].clone();
     let cfgname = case["cfg"]["name"].clone();
     let fail = |status: &str, e: String| json!({"id": id, "cfg": cfgname, "status": status, "err": e});
@@ -94,7 +140,7 @@ async fn run_case(case: Value) -> Value {
         Ok(c) => c,
         Err(e) => return fail("tool_err", e),
     };
-    if let Err(e) = register(&ctx, &case, &opts) {
+    if let Err(e) = register(&ctx, case, &opts).await {
         return fail("tool_err", e);
     }
     let sql = case["sql"].as_str().unwrap();
@@ -126,7 +172,7 @@ async fn run_case(case: Value) -> Value {
     };
     // declared facts are read BEFORE execution, from the nodes the optimiser produced
     let declared: Vec<facts::Declared> = nodes.iter().map(facts::declare).collect();
-    let details: Vec<String> = nodes.iter().map(|n| format!("{}", displayable(n.original.as_ref()).one_line()).trim().chars().take(300).collect()).collect();
+    let details: Vec<String> = nodes.iter().map(|n| format!("{}", displayable(n.original.as_ref()).one_line()).trim().chars().take(4000).collect()).collect();
     let inst = collect_partitioned(Arc::clone(&root), ctx.task_ctx()).await;
     let (base, inst) = match (base, inst) {
         (Ok(b), Ok(i)) => (b, i),
